@@ -272,117 +272,7 @@ func genPbf(repo string) *genFile {
 	}
 
 	// all statements of a function, flattened in source order (simple statements only; compound ones as headers)
-	var flat func(n ast.Node, out *[]string)
-	flat = func(n ast.Node, out *[]string) {
-		switch x := n.(type) {
-		case *ast.BlockStmt:
-			for _, s := range x.List {
-				flat(s, out)
-			}
-		case *ast.IfStmt:
-			h := "if "
-			if x.Init != nil {
-				h += p.nodeText(x.Init) + "; "
-			}
-			*out = append(*out, h+p.nodeText(x.Cond)+" {")
-			flat(x.Body, out)
-			if x.Else != nil {
-				*out = append(*out, "} else {")
-				flat(x.Else, out)
-			}
-			*out = append(*out, "}")
-		case *ast.ForStmt:
-			h := "for "
-			if x.Init != nil || x.Post != nil {
-				if x.Init != nil {
-					h += p.nodeText(x.Init)
-				}
-				h += "; "
-				if x.Cond != nil {
-					h += p.nodeText(x.Cond)
-				}
-				h += "; "
-				if x.Post != nil {
-					h += p.nodeText(x.Post)
-				}
-			} else if x.Cond != nil {
-				h += p.nodeText(x.Cond)
-			}
-			*out = append(*out, strings.TrimSpace(h)+" {")
-			flat(x.Body, out)
-			*out = append(*out, "}")
-		case *ast.RangeStmt:
-			h := "for "
-			if x.Key != nil {
-				h += exprText(x.Key)
-				if x.Value != nil {
-					h += ", " + exprText(x.Value)
-				}
-				h += " " + x.Tok.String() + " "
-			}
-			*out = append(*out, h+"range "+p.nodeText(x.X)+" {")
-			flat(x.Body, out)
-			*out = append(*out, "}")
-		case *ast.SelectStmt:
-			*out = append(*out, "select {")
-			for _, c := range x.Body.List {
-				cc := c.(*ast.CommClause)
-				if cc.Comm == nil {
-					*out = append(*out, "default:")
-				} else {
-					*out = append(*out, "case "+p.nodeText(cc.Comm)+":")
-				}
-				for _, s := range cc.Body {
-					flat(s, out)
-				}
-			}
-			*out = append(*out, "}")
-		case *ast.SwitchStmt:
-			h := "switch"
-			if x.Tag != nil {
-				h += " " + p.nodeText(x.Tag)
-			}
-			*out = append(*out, h+" {")
-			for _, c := range x.Body.List {
-				cc := c.(*ast.CaseClause)
-				if cc.List == nil {
-					*out = append(*out, "default:")
-				} else {
-					var l []string
-					for _, e := range cc.List {
-						l = append(l, p.nodeText(e))
-					}
-					*out = append(*out, "case "+strings.Join(l, ", ")+":")
-				}
-				for _, s := range cc.Body {
-					flat(s, out)
-				}
-			}
-			*out = append(*out, "}")
-		case *ast.GoStmt:
-			if fl, ok := x.Call.Fun.(*ast.FuncLit); ok {
-				*out = append(*out, "go func() {")
-				flat(fl.Body, out)
-				*out = append(*out, "}()")
-			} else {
-				*out = append(*out, p.nodeText(x))
-			}
-		case *ast.DeferStmt:
-			if fl, ok := x.Call.Fun.(*ast.FuncLit); ok {
-				*out = append(*out, "defer func() {")
-				flat(fl.Body, out)
-				*out = append(*out, "}()")
-			} else {
-				*out = append(*out, p.nodeText(x))
-			}
-		case *ast.LabeledStmt:
-			*out = append(*out, x.Label.Name+":")
-			flat(x.Stmt, out)
-		case nil:
-		default:
-			*out = append(*out, p.nodeText(n))
-		}
-	}
+	flat := func(n ast.Node, out *[]string) { p.flat(n, out) }
 	flatBody := func(recv, name string) []string {
 		fd := need(recv, name)
 		if fd == nil {
@@ -431,10 +321,7 @@ func genPbf(repo string) *genFile {
 				return nil
 			}
 			var out []string
-			old := p
-			p = xp
-			flat(fd.Body, &out)
-			p = old
+			xp.flat(fd.Body, &out)
 			return out
 		}
 		g.pf("\ndef xmlScanBody : List String := %s\n", leanStrList(xbody("Scan")))
@@ -464,4 +351,116 @@ func genPbf(repo string) *genFile {
 	}
 	g.pf("\ndef pbfConsts : List String := %s\n", leanStrList(consts))
 	return g
+}
+
+// flat prints the statements of n, one per line, compound statements as header / body / "}" lines.
+func (p *pkg) flat(n ast.Node, out *[]string) {
+	switch x := n.(type) {
+	case *ast.BlockStmt:
+		for _, s := range x.List {
+			p.flat(s, out)
+		}
+	case *ast.IfStmt:
+		h := "if "
+		if x.Init != nil {
+			h += p.nodeText(x.Init) + "; "
+		}
+		*out = append(*out, h+p.nodeText(x.Cond)+" {")
+		p.flat(x.Body, out)
+		if x.Else != nil {
+			*out = append(*out, "} else {")
+			p.flat(x.Else, out)
+		}
+		*out = append(*out, "}")
+	case *ast.ForStmt:
+		h := "for "
+		if x.Init != nil || x.Post != nil {
+			if x.Init != nil {
+				h += p.nodeText(x.Init)
+			}
+			h += "; "
+			if x.Cond != nil {
+				h += p.nodeText(x.Cond)
+			}
+			h += "; "
+			if x.Post != nil {
+				h += p.nodeText(x.Post)
+			}
+		} else if x.Cond != nil {
+			h += p.nodeText(x.Cond)
+		}
+		*out = append(*out, strings.TrimSpace(h)+" {")
+		p.flat(x.Body, out)
+		*out = append(*out, "}")
+	case *ast.RangeStmt:
+		h := "for "
+		if x.Key != nil {
+			h += exprText(x.Key)
+			if x.Value != nil {
+				h += ", " + exprText(x.Value)
+			}
+			h += " " + x.Tok.String() + " "
+		}
+		*out = append(*out, h+"range "+p.nodeText(x.X)+" {")
+		p.flat(x.Body, out)
+		*out = append(*out, "}")
+	case *ast.SelectStmt:
+		*out = append(*out, "select {")
+		for _, c := range x.Body.List {
+			cc := c.(*ast.CommClause)
+			if cc.Comm == nil {
+				*out = append(*out, "default:")
+			} else {
+				*out = append(*out, "case "+p.nodeText(cc.Comm)+":")
+			}
+			for _, s := range cc.Body {
+				p.flat(s, out)
+			}
+		}
+		*out = append(*out, "}")
+	case *ast.SwitchStmt:
+		h := "switch"
+		if x.Tag != nil {
+			h += " " + p.nodeText(x.Tag)
+		}
+		*out = append(*out, h+" {")
+		for _, c := range x.Body.List {
+			cc := c.(*ast.CaseClause)
+			if cc.List == nil {
+				*out = append(*out, "default:")
+			} else {
+				var l []string
+				for _, e := range cc.List {
+					l = append(l, p.nodeText(e))
+				}
+				*out = append(*out, "case "+strings.Join(l, ", ")+":")
+			}
+			for _, s := range cc.Body {
+				p.flat(s, out)
+			}
+		}
+		*out = append(*out, "}")
+	case *ast.GoStmt:
+		if fl, ok := x.Call.Fun.(*ast.FuncLit); ok {
+			*out = append(*out, "go func() {")
+			p.flat(fl.Body, out)
+			*out = append(*out, "}()")
+		} else {
+			*out = append(*out, p.nodeText(x))
+		}
+	case *ast.DeferStmt:
+		if fl, ok := x.Call.Fun.(*ast.FuncLit); ok {
+			*out = append(*out, "defer func() {")
+			p.flat(fl.Body, out)
+			*out = append(*out, "}()")
+		} else {
+			*out = append(*out, p.nodeText(x))
+		}
+	case *ast.LabeledStmt:
+		*out = append(*out, x.Label.Name+":")
+		p.flat(x.Stmt, out)
+	case nil:
+	default:
+		*out = append(*out, p.nodeText(n))
+	}
 }
